@@ -4,6 +4,7 @@ package corerad
 
 import (
 	"encoding/json"
+	"errors"
 	"fmt"
 	"net/netip"
 	"os"
@@ -26,6 +27,9 @@ import (
 type c09Msg struct {
 	Type string `json:"type"` // RS RA NS NA
 	Hop  int    `json:"hop"`
+	// StateFault: the forwarding sysctl cannot be read while this message arrives and is
+	// handled (it can again 10 ms later): an ignored message needs no system state.
+	StateFault bool `json:"while_forwarding_unreadable,omitempty"`
 }
 
 func (m c09Msg) in() inMsg {
@@ -66,6 +70,10 @@ type c09Case struct {
 func (c c09Case) String() string {
 	var s []string
 	for _, m := range c.Seq {
+		if m.StateFault {
+			s = append(s, fmt.Sprintf("%s/%d(state unreadable)", m.Type, m.Hop))
+			continue
+		}
 		s = append(s, fmt.Sprintf("%s/%d", m.Type, m.Hop))
 	}
 	k := "adv"
@@ -113,8 +121,18 @@ func c09Scenario(c c09Case, res *c09Result) *vsched.Scenario {
 				defer w.done()
 				vsched.Sleep(10 * time.Second) // past the rate-limited first periodic RA
 				for _, m := range c.Seq {
+					if m.StateFault {
+						w.st.mu.Lock()
+						w.st.fwdErr = errors.New("verif: too many open files")
+						w.st.mu.Unlock()
+					}
 					w.inject(m.in())
 					vsched.Sleep(10 * time.Millisecond)
+					if m.StateFault {
+						w.st.mu.Lock()
+						w.st.fwdErr = nil
+						w.st.mu.Unlock()
+					}
 				}
 				vsched.Sleep(2 * time.Second)
 				res.returned, res.runErr = returned()
@@ -258,7 +276,7 @@ func c09Run(t *testing.T, c c09Case) (*vsched.Exec, [][2]string) {
 func TestVerifC09(t *testing.T) {
 	r := ev.Begin("C09", "sequences")
 	defer r.End(t)
-	r.Rule = "message sequences fed to the real advertiser and the real monitor (with and without verbose logging) (instrumented, virtual clock, canonical schedule): (a) every single message type {RS,RA,NS,NA} x every hop limit 0..255; (b) all sequences of length<=L over {valid RS, RS hop 64, NS hop 255, RA hop 1, transient receive timeout (at most 4)} followed by a valid RS, and (length<=3; thorough: all) ending there with the listener left waiting; (c) runs of 1..12 consecutive invalid messages (pure, mixed, with a timeout inside; retry budget is 5) ending there and followed by a valid RS; counters are read while the task is still running; oracle: invalid counter = number of invalid messages by type, handled/monitor counters = valid ones, one unicast RA per valid RS, every message read within 310ms of its arrival (receive back-off never grows with invalid traffic), Run still running and no re-dial at the end; states = sequences executed; non-trivial = sequence contains an invalid message; distinct = distinct (mode, sequence)"
+	r.Rule = "message sequences fed to the real advertiser and the real monitor (with and without verbose logging) (instrumented, virtual clock, canonical schedule): (a) every single message type {RS,RA,NS,NA} x every hop limit 0..255; (b) all sequences of length<=L over {valid RS, RS hop 64, NS hop 255, RA hop 1, transient receive timeout (at most 4)} followed by a valid RS, and (length<=3; thorough: all) ending there with the listener left waiting; (d) on the advertiser, NS / NA / DAD probes (hop limit 255 and 64) and bad-hop RS/RA arriving while the forwarding sysctl is unreadable, between and before valid RS; (c) runs of 1..12 consecutive invalid messages (pure, mixed, with a timeout inside; retry budget is 5) ending there and followed by a valid RS; counters are read while the task is still running; oracle: invalid counter = number of invalid messages by type, handled/monitor counters = valid ones, one unicast RA per valid RS, every message read within 310ms of its arrival (receive back-off never grows with invalid traffic), Run still running and no re-dial at the end; states = sequences executed; non-trivial = sequence contains an invalid message; distinct = distinct (mode, sequence)"
 	if r.Replay != nil {
 		var c c09Case
 		if err := json.Unmarshal(r.Replay, &c); err != nil {
@@ -309,9 +327,9 @@ func TestVerifC09(t *testing.T) {
 				if !r.Thorough() && h > 3 && h < 252 && h != 64 && h != 128 {
 					continue
 				}
-				one(c09Case{Monitor: mon, Seq: []c09Msg{{typ, h}, {"RS", 255}}})
+				one(c09Case{Monitor: mon, Seq: []c09Msg{{Type: typ, Hop: h}, {Type: "RS", Hop: 255}}})
 				if h == 64 || h == 0 || h == 254 {
-					one(c09Case{Monitor: mon, Verbose: true, Seq: []c09Msg{{typ, h}, {"RS", 255}}})
+					one(c09Case{Monitor: mon, Verbose: true, Seq: []c09Msg{{Type: typ, Hop: h}, {Type: "RS", Hop: 255}}})
 				}
 			}
 		}
@@ -324,16 +342,16 @@ func TestVerifC09(t *testing.T) {
 				for j := 0; j < k; j++ {
 					switch {
 					case kind == "rs" || (kind != "ra" && j%2 == 0):
-						c.Seq = append(c.Seq, c09Msg{"RS", 64})
+						c.Seq = append(c.Seq, c09Msg{Type: "RS", Hop: 64})
 					default:
-						c.Seq = append(c.Seq, c09Msg{"RA", 1})
+						c.Seq = append(c.Seq, c09Msg{Type: "RA", Hop: 1})
 					}
 					if kind == "mixed+timeout" && j == k/2 {
-						c.Seq = append(c.Seq, c09Msg{"TO", 0})
+						c.Seq = append(c.Seq, c09Msg{Type: "TO"})
 					}
 				}
 				one(c) // the run of invalid messages is the last thing received
-				c.Seq = append(append([]c09Msg(nil), c.Seq...), c09Msg{"RS", 255})
+				c.Seq = append(append([]c09Msg(nil), c.Seq...), c09Msg{Type: "RS", Hop: 255})
 				one(c)
 				if k <= 6 {
 					c.Verbose = true // verbose logging must not change what is delivered
@@ -341,7 +359,17 @@ func TestVerifC09(t *testing.T) {
 				}
 			}
 		}
-		alpha := []c09Msg{{"RS", 255}, {"RS", 64}, {"NS", 255}, {"NS0", 255}, {"RA", 1}, {"TO", 0}}
+		alpha := []c09Msg{{Type: "RS", Hop: 255}, {Type: "RS", Hop: 64}, {Type: "NS", Hop: 255}, {Type: "NS0", Hop: 255}, {Type: "RA", Hop: 1}, {Type: "TO"}}
+		if !mon {
+			// (Advertiser only: messages it ignores, arriving while the system state is unreadable.)
+			for _, typ := range []string{"NS", "NA", "NS0"} {
+				for _, hop := range []int{255, 64} {
+					one(c09Case{Seq: []c09Msg{{Type: "RS", Hop: 255}, {Type: typ, Hop: hop, StateFault: true}, {Type: "RS", Hop: 255}}})
+					one(c09Case{Seq: []c09Msg{{Type: typ, Hop: hop, StateFault: true}, {Type: typ, Hop: hop, StateFault: true}}})
+				}
+			}
+			one(c09Case{Seq: []c09Msg{{Type: "RS", Hop: 64, StateFault: true}, {Type: "RA", Hop: 1, StateFault: true}, {Type: "RS", Hop: 255}}})
+		}
 		enum.Sequences(len(alpha), L, func(seq []int) bool {
 			if len(seq) == 0 {
 				return true
@@ -364,7 +392,7 @@ func TestVerifC09(t *testing.T) {
 			if len(seq) <= 3 || r.Thorough() {
 				one(c)
 			}
-			c.Seq = append(append([]c09Msg(nil), c.Seq...), c09Msg{"RS", 255})
+			c.Seq = append(append([]c09Msg(nil), c.Seq...), c09Msg{Type: "RS", Hop: 255})
 			one(c)
 			return !r.OverBudget()
 		})
